@@ -31,6 +31,10 @@ THEOREMS = [
     "PorepyVerif.C12.tpfa_bound_pressure_dirichlet",
     "PorepyVerif.C12.tpfa_hydrostatic_zero_flux",
     "PorepyVerif.C12.tpfa_hydrostatic_bound_pressure",
+    "PorepyVerif.C12.tpfa_linear_exact",
+    "PorepyVerif.C12.tpfa_const_zero_flux_wf",
+    "PorepyVerif.C12.cartLike_pos",
+    "PorepyVerif.C12.tpfa_Mmatrix_cartesian",
     "PorepyVerif.C12.tpfa_eq_mpfa_Korth",
     "PorepyVerif.C12.tpfa_eq_mpfa_Korth_entries",
 ]
@@ -48,6 +52,7 @@ RULE = ("grids: CartGrid / TensorGrid (non-uniform rational coordinates) / Struc
         "dir / neu (a small share rob; occasionally dir on a fracture face); ambient_dimension 1-3 or default. "
         "non-trivial = at least 2 cells, at least one Dirichlet and one Neumann face; distinct = distinct case descriptions")
 TRUSTED = [
+    "the decidable hypotheses WellFormed and bndOK of the grid-level theorems are evaluated by the model on every real grid and compared with an independent evaluation on the porepy objects; cartLike / korthGrid are exact-arithmetic predicates (vanishing cross products) that binary64 geometry only satisfies when the rounded centres line up exactly: counted in the evidence, not compared",
     "modelled, not verified: the numpy/scipy glue of Tpfa.discretize (broadcasting, bincount, coo->csr conversion, dia->csr dropping zeros); compared on every case",
     "grid geometry (face normals, centres) and topology are INPUTS of the model, taken from the real grid object (C19/C21 cover them)",
     "not modelled: the deprecated periodic_face_map branch, the hidden Aavatsmark_transmissibilities option (norms), IEEE behaviour when a half transmissibility or a harmonic sum vanishes (such cases are flagged by the model, skipped and counted)",
@@ -64,6 +69,7 @@ ASSUMPTIONS = ["class T comparison of matrix values, relative: |impl - model| <=
                "boundary faces have exactly one neighbouring cell (grid invariant, C21)"]
 
 _skipped_degenerate = [0]
+_flag_counts = {"cartLike": 0, "korthGrid": 0}
 
 
 # ----------------------------------------------------------------------------- generation
@@ -115,13 +121,36 @@ def _shear(rng, dim):
     return j
 
 
+STRATA = ["single-cell", "strip", "tiny-aniso-K", "huge-K", "sheared-korth-constK", "dir-on-fracture", "one-dir", "all-neu-constK"]
+
+
 def gen_case(rng, tier):
+    """30% of the cases come from an explicit stratum (corner cases), the rest from the free generator."""
+    if rng.random() < 0.3:
+        st = rng.choice(STRATA)
+        force = {"single-cell": {"kind": rng.choice(["cart", "tensor", "cart1", "tri", "tet"]), "ones": True},
+                 "strip": {"kind": rng.choice(["cart", "tensor"]), "strip": True},
+                 "tiny-aniso-K": {"kind": rng.choice(["cart", "tensor"]), "variant": "plain", "mode": "diag", "const": True, "kscale": rng.randint(-53, -40), "aniso": True, "mpfa": True},
+                 "huge-K": {"kscale": rng.randint(20, 27)},
+                 "sheared-korth-constK": {"kind": rng.choice(["cart", "tensor"]), "variant": "affine", "mode": "korth", "const": True, "style": "mixed"},
+                 "dir-on-fracture": {"kind": "frac", "frac_dir": True, "style": "all-dir"},
+                 "one-dir": {"style": "one-dir"},
+                 "all-neu-constK": {"style": "all-neu", "const": True}}[st]
+        c = _gen(rng, tier, force)
+        c["stratum"] = st
+        return c
+    c = _gen(rng, tier, {})
+    c["stratum"] = "free"
+    return c
+
+
+def _gen(rng, tier, force):
     big = tier == "thorough"
     r = rng.random()
-    if r < 0.03:
+    if r < 0.03 and not force:
         return {"kind": "point", "dim": 0, "nx": [], "K": {"mode": "iso", "vals": [[frac(x) for x in _spd(rng, "iso")]]}, "bc": [],
                 "vsd": rng.choice([None, 0, 1, 2, 3]), "J": None, "perturb": [], "mpfa": False, "kscale": 0, "gscale": 0}
-    kind = rng.choice(["cart", "cart", "tensor", "tensor", "tri", "tet", "frac", "cart1", "tensor1"])
+    kind = force.get("kind") or rng.choice(["cart", "cart", "tensor", "tensor", "tri", "tet", "frac", "cart1", "tensor1"])
     case = {"kind": kind, "J": None, "perturb": [], "coords": None, "frac": None}
     if kind in ("cart1", "tensor1"):
         dim = 1
@@ -146,6 +175,11 @@ def gen_case(rng, tier):
         nx = [rng.randint(1, mx) for _ in range(dim)]
         if dim == 3 and not big and nx.count(2) == 3 and rng.random() < 0.5:
             nx[rng.randrange(3)] = 1
+    if force.get("ones"):
+        nx = [1] * len(nx)
+    if force.get("strip") and dim >= 2:
+        nx = [1] * len(nx)
+        nx[rng.randrange(len(nx))] = rng.randint(2, 5)
     case["dim"], case["nx"] = dim, nx
     if case["kind"] == "tensor":
         coords = []
@@ -169,6 +203,7 @@ def gen_case(rng, tier):
             case["frac"] = [[a, b], [y, y]]
     # geometry variants
     variant = rng.choice(["plain", "plain", "plain", "plain", "plain", "affine", "affine", "perturbed", "rotated", "affine+rotated", "perturbed+rotated"])
+    variant = force.get("variant", variant)
     if kind == "frac":
         variant = "plain"
     J = None
@@ -199,9 +234,13 @@ def gen_case(rng, tier):
     # tensor
     nc = int(g0.num_cells)
     mode = rng.choice(["iso", "diag", "full", "full", "korth", "korth"]) if shear is not None else rng.choice(["iso", "diag", "diag", "diag", "full", "full"])
-    const = rng.random() < (0.7 if mode == "korth" else 0.4)
+    if force.get("mode") and (force["mode"] != "korth" or shear is not None):
+        mode = force["mode"]
+    const = force.get("const", rng.random() < (0.7 if mode == "korth" else 0.4))
     base_modes = "diag" if mode == "korth" else mode
     vals = [_spd(rng, base_modes)] * nc if const else [_spd(rng, base_modes) for _ in range(nc)]
+    if force.get("aniso"):
+        vals = [[v[0], v[1] * 100, v[2], 0, 0, 0] for v in vals]
     if mode == "korth":
         # K = J K0 J^T keeps the sheared grid K-orthogonal (J includes the rotation if any)
         Jm = J
@@ -223,7 +262,7 @@ def gen_case(rng, tier):
     case["K"] = {"mode": mode, "const": const, "vals": [[frac(x) for x in v] for v in vals]}
     # boundary conditions (per boundary face, in the order of get_all_boundary_faces)
     nb = int(g0.get_all_boundary_faces().size)  # tags are set by the constructor
-    style = rng.choice(["mixed", "mixed", "mixed", "all-dir", "all-neu", "one-dir", "with-rob"])
+    style = force.get("style") or rng.choice(["mixed", "mixed", "mixed", "all-dir", "all-neu", "one-dir", "with-rob"])
     bc = []
     for _ in range(nb):
         if style == "all-dir":
@@ -238,12 +277,12 @@ def gen_case(rng, tier):
         bc = ["neu"] * nb
         bc[rng.randrange(nb)] = "dir"
     case["bc"] = bc
-    case["frac_dir"] = kind == "frac" and rng.random() < 0.25  # allow 'dir' to land on fracture faces
+    case["frac_dir"] = kind == "frac" and (force.get("frac_dir") or rng.random() < 0.25)  # allow 'dir' to land on fracture faces
     case["vsd"] = rng.choice([None, None, 1, 2, 3])
-    case["mpfa"] = rng.random() < (0.8 if not big else 0.35)
+    case["mpfa"] = force.get("mpfa") or rng.random() < (0.8 if not big else 0.35)
     # magnitude: the tensor is multiplied by 2^kscale (1e-16 .. 1e+8, e.g. SI permeabilities), the node coordinates by
     # 2^gscale (1e-3 .. 1e+3); powers of two keep every binary64 value (hence the rational model input) exact
-    case["kscale"] = 0 if rng.random() < 0.3 else rng.randint(-53, 27)
+    case["kscale"] = force["kscale"] if "kscale" in force else (0 if rng.random() < 0.3 else rng.randint(-53, 27))
     case["gscale"] = 0 if (rng.random() < 0.6 or kind == "frac") else rng.randint(-10, 10)
     if case["perturb"]:
         try:  # a perturbation that inverts a cell is not an input of interest: fall back to the unperturbed grid
@@ -361,7 +400,36 @@ def impl_run(case):
     out = {key: _canon(M[key]) for key in KEYS if key in M}
     out["keys"] = sorted(M.keys())
     out["formats"] = sorted({M[key].format for key in M})
+    if g.dim > 0:
+        out["hyp"] = _hypotheses(g, bc)
     return out
+
+
+def _hypotheses(g, bc):
+    """The topological hypotheses of the grid-level theorems (WellFormed, bndOK), evaluated independently on the real
+    grid / boundary condition objects; compared with the model's decidable predicates on every case."""
+    cf = g.cell_faces.tocsr()
+    wf, per_face = True, []
+    for f in range(g.num_faces):
+        row = cf.getrow(f)
+        cells, sg = list(row.indices), list(row.data)
+        per_face.append(len(cells))
+        if len(cells) == 1:
+            wf &= sg[0] in (1, -1)
+        elif len(cells) == 2:
+            wf &= cells[0] != cells[1] and sorted(sg) == [-1, 1]
+        else:
+            wf = False
+    bf = [int(f) for f in g.get_all_boundary_faces()]
+    neu = bc.is_neu | bc.is_internal
+    dr = bc.is_dir & ~bc.is_internal
+    ok = len(set(bf)) == len(bf)
+    for f in bf:
+        ok &= per_face[f] == 1 and bool(neu[f] or dr[f])
+    for f in range(g.num_faces):
+        if f not in bf:
+            ok &= per_face[f] == 2 and not bool(neu[f])
+    return {"wellFormed": bool(wf), "bndOK": bool(ok)}
 
 
 def _vsd(case, g):
@@ -388,6 +456,11 @@ def model_decode(outs, case):
     if not isinstance(o, dict) or "err" in o:
         return o
     res = {"degenerate": o.get("degenerate", False)}
+    if "wellFormed" in o:
+        res["hyp"] = {"wellFormed": o["wellFormed"], "bndOK": o["bndOK"]}
+        res["flags"] = {"cartLike": o["cartLike"], "korthGrid": o["korthGrid"]}
+        _flag_counts["cartLike"] += bool(o["cartLike"])
+        _flag_counts["korthGrid"] += bool(o["korthGrid"])
     for key in KEYS:
         acc = {}
         for i, j, v in o[key]["t"]:  # coo -> csr sums duplicates
@@ -403,6 +476,10 @@ def compare(impl, model, case):
         return f"model answered {model}"
     if "err" in impl or "harness_exc" in impl:
         return f"implementation raised {impl} where the model produced matrices"
+    if impl.get("hyp") != model.get("hyp"):  # topological hypotheses of the theorems: exact, also on knife-edge inputs
+        return f"hypotheses on the real grid {impl.get('hyp')} vs model predicates {model.get('hyp')}"
+    if impl.get("hyp") and not impl["hyp"]["wellFormed"]:
+        return "real grid is not well-formed (a face without one cell / two oppositely oriented cells)"
     if model.get("degenerate"):
         _skipped_degenerate[0] += 1
         return None
@@ -511,6 +588,16 @@ def oracle(case):
         is_neu = bc.is_neu[f] or bc.is_internal[f]
         if is_neu and abs(tf[0]) > 0:
             return {"what": f"Neumann face {f} has non-zero transmissibility {tf[0]!r}", "key": "neumann-trans-nonzero"}
+    # 2b. every Neumann boundary face (internal / fracture faces included) carries exactly the prescribed outward flux:
+    #     bound_flux[f, f] = orientation of the face, nothing else in that row
+    Bf = bflux.toarray()
+    for f in g.get_all_boundary_faces():
+        if (bc.is_neu[f] or bc.is_internal[f]) and not bc.is_rob[f]:
+            sg = float(D[f, np.nonzero(D[f])[0][0]])
+            row = Bf[f].copy()
+            row[f] -= sg
+            if np.abs(row).max() > 1e-12:
+                return {"what": f"Neumann face {f}: bound_flux row is not the orientation {sg} on the diagonal (diag {Bf[f, f]!r})", "key": "neumann-bound-flux"}
     # 3. constant pressure with matching Dirichlet data (and zero Neumann data): zero flux on every face
     if pure_bc:
         for c0 in (1.0, -2.5):
@@ -668,6 +755,8 @@ def stats(cases, impl_outs):
             "tensor_scale_log2": {"0": cnt(lambda c: not c.get("kscale")), "<-30": cnt(lambda c: (c.get("kscale") or 0) < -30),
                                   "-30..-1": cnt(lambda c: -30 <= (c.get("kscale") or 0) < 0), ">0": cnt(lambda c: (c.get("kscale") or 0) > 0)},
             "grid_scaled": cnt(lambda c: bool(c.get("gscale"))),
+            "strata": {st: cnt(lambda c: c.get("stratum") == st) for st in STRATA + ["free"]},
+            "model_predicates_true_on_real_geometry": dict(_flag_counts),
             "cells_min_max": [min(ncells), max(ncells)] if ncells else None,
             "impl_errors": sum(1 for o in impl_outs if isinstance(o, dict) and ("err" in o or "harness_exc" in o)),
             "skipped_degenerate": _skipped_degenerate[0]}
